@@ -1,6 +1,7 @@
 '''C08 Functional update interfaces change only what they address.'''
 from sfa.report import Ctx
 from sfa.rules import frozen
+from sfa.rules import resolve
 from sfa.rules import selectrules
 from sfa.rules import updaterules
 
@@ -30,6 +31,7 @@ def run(ctx: Ctx) -> None:
     updaterules.drop_pairs(ctx)
     updaterules.assign_keys(ctx)
     selectrules.bloc_coordinates(ctx)
+    resolve.f1_resolver_coverage(ctx)
     d = frozen.Driver(ctx)
     funcs = [f for f in ctx.prog.top_funcs() if f.name.startswith(UPDATE_PREFIXES) or f.name == '__call__' and f.cls is not None
              and f.cls.name in ('FrameAssignILoc', 'FrameAssignBLoc', 'SeriesAssign', 'FrameAsType')]
